@@ -28,4 +28,16 @@ def run(tier):
                              expect={"any": ["VERIF-HANG", "stack overflow", "goroutine stack exceeds"]})
                     continue
                 c.handle("ship", entry, v, make_tape=ship_tape, hang_s=6)
+    # mDNS resolver input (TXT items, element maps, address lists, ports)
+    from c17 import MDNS_CUTS
+    res2, meta2 = lib.run_engine("mdns", ["H_C08_Mdns"], sched="manual", cuts=MDNS_CUTS, loop=80, solver="z3-new", maxstr=6, extra=["-bvstr"])
+    c.bounds["mdns_txt_item_len_max"] = 6
+    c.bounds["mdns_txt_items_max"] = 3
+    c.add_run("mdns-resolver", res2, meta2)
+    if res2:
+        r = res2["H_C08_Mdns"]
+        if not r["covers"].get("c08.mdns.end"):
+            c.covers_missing.append("H_C08_Mdns:c08.mdns.end")
+        for v in r["violations"] or []:
+            c.handle("mdns", "H_C08_Mdns", v, hang_s=6)
     return c.finish()
